@@ -32,7 +32,13 @@ Empties == {[allOf |-> <<>>, properties |-> EmptyFcn, prefixItems |-> <<>>, defs
             [items |-> [itemsArray |-> <<>>, patternProperties |-> EmptyFcn, dependentSchemas |-> EmptyFcn]],
             [allOf |-> <<[prefixItems |-> <<>>, depSchemas |-> EmptyFcn, definitions |-> EmptyFcn]>>]}
 \* the empty schema ("true") and the falsy schema {"not": {}} as a child: they are Schema objects like any other
+\* (a node that only LOOKS like false: "not": {} next to keywords kept in fields without a JSON name of their own -
+\* type, the type list, unknown keywords, the property order)
+FalsyLooking == {[not |-> EmptyFcn, type |-> "string"], [not |-> EmptyFcn, types |-> <<"null", "integer">>],
+                 [not |-> EmptyFcn, extra |-> [x |-> Num(R_1)]], [not |-> EmptyFcn, title |-> "t"],
+                 [not |-> EmptyFcn, properties |-> [a |-> Leaf(1)], propertyOrder |-> <<"a">>]}
 TrueKids == {OneUnder(kw, EmptyFcn) : kw \in AllKW} \cup {OneUnder(kw, [not |-> EmptyFcn]) : kw \in AllKW}
+            \cup FalsyLooking \cup {OneUnder(kw, f) : kw \in {"properties", "prefixItems", "depSchemas", "items", "not"}, f \in FalsyLooking}
             \cup {OneUnder(k1, OneUnder(k2, EmptyFcn)) : k1 \in {"items", "allOf", "properties", "not", "if"}, k2 \in AllKW}
 \* bushy trees: several child-bearing nodes on one level, in every position (an iterative, level-by-level copy
 \* has to reach each of them whatever their neighbours hold)
